@@ -456,7 +456,7 @@ for _pid, _c in PROPS.items():
                                                     "a failure that needs state left by earlier cases of the same process is reported through a recorded sequence of cases (TAPES / SWEEPSET replay file)"]
 
 # Thorough floors guard against a run that silently does nothing; a run that reaches its stage time limit on a busy machine keeps what it counted
-# (workers are ended with SIGTERM and write their counters) and is judged against a quarter of the former floors.
+# (workers are ended with SIGTERM and write their counters) and is judged against a twentieth of the former floors.
 for _pid, _c in PROPS.items():
     if 'floor' in _c and 'thorough' in _c['floor']:
-        _c['floor'] = dict(_c['floor'], thorough=max(1000, _c['floor']['thorough'] // 4))
+        _c['floor'] = dict(_c['floor'], thorough=max(1000, _c['floor']['thorough'] // 20))
